@@ -453,6 +453,9 @@ def check_default_writers(ctx):
                         ctx.holds(rule, fi, st, 'specialization: the class installs its declared constant', a_.lineno, clause='a')
                     elif isinstance(a_, ast.AugAssign) or any(isinstance(x, ast.Attribute) and x.attr == 'default' for x in ast.walk(v)):
                         ctx.violation(rule, fi, st, 'the declared default is recomputed after construction: packets built without arguments no longer hold the value the declaration gave', a_.lineno, clause='a', witness=True)
+                    elif isinstance(t_.value, ast.Name) and t_.value.id not in ('self', 'cls') and fi.cls is not None and repo.is_subclass(fi.cls, 'Field'):
+                        # Round 8: one field rewriting the default of another field object
+                        ctx.violation(rule, fi, st, 'a field rewrites the declared default of another field object (%s): the fields reached through another packet class are that class\'s own declarations, so its packets built without arguments change too' % t_.value.id, a_.lineno, clause='a', witness=True)
                     else:
                         ctx.undecided(rule, fi, st, 'a default is assigned outside the constructors', a_.lineno, clause='a')
     ctx.unit('default_writers', n)
